@@ -560,12 +560,76 @@ Fixpoint bw_history (e : list (string * rty)) (gs : list (list Z)) : option (lis
       end
   end.
 
+(* ---------------------------------------------------------------- restart on a left-over segment (cache.NewSHM)
+   A run of the server calls cache.NewSHM(key, hugetlb, isCreate). What a run finds under the key is either nothing
+   or the segment a previous run left: its allocation size, the Version and Size stamps at offsets 0 and 4, and the
+   segment fields Number and Loaded. shmget refuses a segment smaller than the size asked for; a segment that
+   already exists is only VERIFIED (never stamped); a segment this call created is stamped and then verified.
+   al is ptttype.SHMALIGNEDSIZE (a run-time setting). *)
+Definition shm_version (c : cfg) : Z :=
+  match c with Default => Gen.Consts_default.cache.SHM_VERSION | Docker => Gen.Consts_docker.cache.SHM_VERSION end.
+Definition shm_raw_sz (c : cfg) : Z :=
+  match c with Default => Gen.Consts_default.cache.SHM_RAW_SZ | Docker => Gen.Consts_docker.cache.SHM_RAW_SZ end.
+Definition shm_size (c : cfg) (al : Z) : Z := if al =? 0 then shm_raw_sz c else (shm_raw_sz c / al + 1) * al.
+
+Record seg : Type := { sg_alloc : Z; sg_ver : Z; sg_size : Z; sg_number : Z; sg_loaded : Z }.
+Definition ERR_SHM_VERSION : Z := 1.
+Definition ERR_SHM_SIZE : Z := 2.
+Definition ERR_SHMGET : Z := 5.
+
+Definition fresh_seg (c : cfg) (al : Z) : seg :=
+  {| sg_alloc := shm_size c al; sg_ver := shm_version c; sg_size := shm_raw_sz c; sg_number := 0; sg_loaded := 0 |}.
+Definition shm_verify (c : cfg) (g : seg) : Z * Z :=
+  if sg_ver g =? shm_version c
+  then if sg_size g =? shm_raw_sz c then (ST_OK, 0) else (ST_ERR, ERR_SHM_SIZE)
+  else (ST_ERR, ERR_SHM_VERSION).
+Definition newshm (c : cfg) (al : Z) (isCreate : bool) (s : option seg) : (Z * Z) * option seg :=
+  match s with
+  | Some g => if sg_alloc g <? shm_size c al then ((ST_ERR, ERR_SHMGET), Some g) else (shm_verify c g, Some g)
+  | None => if isCreate then (shm_verify c (fresh_seg c al), Some (fresh_seg c al)) else ((ST_ERR, ERR_SHMGET), None)
+  end.
+
+(* one run of a server: NewSHM; when accepted the run works on the segment (here: sets Number and Loaded) and
+   exits, leaving the segment behind. The observation is taken right after NewSHM. *)
+Record srun : Type := { r_create : bool; r_number : Z; r_loaded : Z }.
+Definition shm_accepted (o : Z * Z) : bool := fst o =? ST_OK.
+Definition shm_run (c : cfg) (al : Z) (r : srun) (s : option seg) : ((Z * Z) * option seg) * option seg :=
+  let '(o, s1) := newshm c al (r_create r) s in
+  ((o, s1),
+   if shm_accepted o
+   then option_map (fun g => {| sg_alloc := sg_alloc g; sg_ver := sg_ver g; sg_size := sg_size g;
+                                sg_number := r_number r; sg_loaded := r_loaded r |}) s1
+   else s1).
+Fixpoint shm_history (c : cfg) (al : Z) (rs : list srun) (s : option seg) : list ((Z * Z) * option seg) * option seg :=
+  match rs with
+  | [] => ([], s)
+  | r :: rest => let '(o, s1) := shm_run c al r s in
+                 let '(os, s2) := shm_history c al rest s1 in (o :: os, s2)
+  end.
+
+(* per run: status code, then 0 (no segment under the key) or 1 Version Size Number Loaded k, k = the number of
+   bytes outside those four fields that NewSHM changed (the code writes no other byte: 0) *)
+Definition wire_seg (s : option seg) : list Z :=
+  match s with None => [0] | Some g => [1; sg_ver g; sg_size g; sg_number g; sg_loaded g; 0] end.
+Definition wire_srun (o : (Z * Z) * option seg) : list Z := wire_status (fst o) ++ wire_seg (snd o).
+Fixpoint parse_sruns (gs : list (list Z)) : option (list srun) :=
+  match gs with
+  | [] => Some []
+  | [b; n; l] :: r => match parse_sruns r with
+                      | Some rs => Some ({| r_create := negb (b =? 0); r_number := n; r_loaded := l |} :: rs)
+                      | None => None
+                      end
+  | _ => None
+  end.
+
 (* op 1 layout of a struct: go_size packed_size go_align nfields (len name.. go_off packed_off go_sz packed_sz)*
    op 2 encode a record value given by its leaves; op 3 decode bytes to leaves
    op 4 partial update of .PASSWDS: [cfg; uid] field-name value-leaves file
    op 5 level-2 update of .PASSWD2: [cfg; exists; perm; isSet; now] file
    op 10 a history of updates, some refused: [cfg; pin] .PASSWDS [exists] .PASSWD2 step...   (pin: scheduling of the driver only)
-   op 11 a history of types.BinaryWrite calls to writers of limited room: [cfg; pin] (name leaves [sink])... *)
+   op 11 a history of types.BinaryWrite calls to writers of limited room: [cfg; pin] (name leaves [sink])...
+   op 13 runs of a server over one shared-memory key: [cfg; SHMALIGNEDSIZE] [exists; alloc; Version; Size; Number; Loaded]
+         (the segment a previous run left, if any) then per run [isCreate; Number; Loaded] *)
 Definition run_case (args : list (list Z)) : list Z :=
   match args with
   | [[1]; [c]; name] =>
@@ -616,6 +680,14 @@ Definition run_case (args : list (list Z)) : list Z :=
   | [11] :: [c; _] :: gs =>
       match bw_history (env (cfg_of c)) gs with
       | Some out => ST_OK :: out
+      | None => [ST_BADCASE]
+      end
+  | [13] :: [c; al] :: [ex; alloc; ver; size; number; loaded] :: runs =>
+      match parse_sruns runs with
+      | Some rs =>
+          let s := if ex =? 0 then None
+                   else Some {| sg_alloc := alloc; sg_ver := ver; sg_size := size; sg_number := number; sg_loaded := loaded |} in
+          ST_OK :: flat_map wire_srun (fst (shm_history (cfg_of c) al rs s))
       | None => [ST_BADCASE]
       end
   | _ => [ST_BADCASE]
